@@ -435,11 +435,18 @@ pub(crate) const fn is_unicast_global_ipv6(ip: &Ipv6Addr) -> bool {
 /// - the loopback address
 /// - link-local and unique local unicast addresses
 /// - interface-, link-, realm-, admin- and site-local multicast addresses
+/// - IPv4-mapped addresses (`::ffff:a.b.c.d`) whose IPv4 address is not global
+///   (see [`is_global_ipv4`])
 ///
 /// @todo: replace with [`Ipv6Addr::is_global`] when it becomes stable
 #[must_use]
 #[inline]
 pub(crate) const fn is_global_ipv6(ip: &Ipv6Addr) -> bool {
+    // A connection to an IPv4-mapped address (`::ffff:a.b.c.d`) goes to `a.b.c.d`
+    if let Some(v4) = ip.to_ipv4_mapped() {
+        return is_global_ipv4(&v4);
+    }
+
     // The scope nibble below exists only in multicast addresses (`ff00::/8`) [RFC 4291 section 2.7]
     if !ip.is_multicast() {
         return is_unicast_global_ipv6(ip);
